@@ -98,6 +98,10 @@ PROPS['C02'] = {'module': 'system',
     'technique': 'TLC model check of FxpSystem (invariant WellFormed on every reachable object) + replay of the transition cover + TLC trace validation where range, n_int, upper/lower/precision and the dtype string are evaluated on the attributes the REAL objects report after every call; saturation side checked in the store world (MC_Store SatSide)',
     'level_text': 'Every object reachable by construct / set / indexed set / resize / like / arithmetic / negation / indexing histories of the bounded instance is checked by TLC for codes in range; on real objects TLC evaluates after every call, for every live object, codes within the range of its own format, n_int = n_word - n_frac - sign, upper/lower/precision = max/min code and one LSB, and dtype spelling, directly on the observed attributes.',
     'level_note': _SYS_NOTE}
+PROPS['C18'] = {'module': 'ext',
+    'technique': 'TLC model checks (BigInt vs native Int; native vs BigInt instantiation of the functor; store/wrap, bitwise and string operators at small widths) + TLC trace validation over BigInt of seeded 64..256-bit events of the real code: integer codes (raw) and integer values by every route, bin/hex strings in raw mode, bin()/hex(), bitwise operators, and the extended-precision indicator along object histories',
+    'level_text': 'At the widths of the property there is no exhaustive world; TLC establishes that the limb arithmetic is integer arithmetic, that the functor instantiations agree and that the operators are right at small widths, and then judges every recorded event over BigInt: n_word in {64,65,66,72,96,127,128,129,200,256}, n_frac in {0,1,n_word/2,n_word-1,n_word}, both signs and overflow modes; codes at and just beyond both bounds, multiples of the modulus, random codes up to 4x the word length (stored code = Quantize, flags exact); rendered strings fed back in raw mode; bit patterns of ~ & | ^; and the indicator = (n_word >= 64) after construction, reset, resize across the threshold in both directions, like=, like(), deepcopy, indexing and arithmetic, incl. the negative side (1..63 bits).',
+    'level_note': _AR_NOTE + ' Sampling only at these widths.'}
 
 NOT_APPLICABLE = {}
 
@@ -190,6 +194,11 @@ def default_account(chk, obs):
             lo, hi = _ext(row['x'])
             if cs and all(c in (lo, hi) for c in cs):
                 seen.add((k, row['fn'], row['route'], row['axis'], row['x']['s'], row['x']['w'], row['x']['f'], tuple(cs), str(row.get('yrows'))))
+        elif k == 'extflag':
+            ev += len(row.get('obs', []))
+            for o_ in row.get('obs', []):
+                if o_['w'] in (63, 64, 65):
+                    seen.add((k, o_['w'], o_['how']))
         elif k in ('render', 'parse'):
             cs = [unwint(c) for c in row.get('c', [])]
             ev += len(cs)
